@@ -68,10 +68,9 @@ def numText (addr : BitVec 32) (op : Nat) (b1 b2 : BitVec 8) : List Char :=
   else if bytesOf op = 3 then t!"0x" ++ hex 4 ((u8 b2 <<< 8) ||| u8 b1)
   else []
 
-/-- `temp`: the operand text -/
-def operandText (addr : BitVec 32) (op : Nat) (b1 b2 : BitVec 8) : List Char :=
+/-- `temp`: the operand text, `num` being the numeral -/
+def operandTextOf (num : List Char) (addr : BitVec 32) (op : Nat) (b1 b2 : BitVec 8) : List Char :=
   if 1 < bytesOf op then
-    let num := numText addr op b1 b2
     if op = M6502_OP_NONE then t!" "
     else if op = M6502_OP_IMMEDIATE then t!" #" ++ num
     else if op = M6502_OP_ADDRESS8 ∨ op = M6502_OP_ADDRESS16 then t!" " ++ num
@@ -86,6 +85,9 @@ def operandText (addr : BitVec 32) (op : Nat) (b1 b2 : BitVec 8) : List Char :=
     else t!" "
   else t!" "
 
+def operandText (addr : BitVec 32) (op : Nat) (b1 b2 : BitVec 8) : List Char :=
+  operandTextOf (numText addr op b1 b2) addr op b1 b2
+
 structure Dis where
   text : List Char
   len : Nat
@@ -93,9 +95,8 @@ structure Dis where
 
 /-- `disasm_6502(memory, addr, instruction, …)` -/
 def disasm (addr : BitVec 32) (b0 b1 b2 : BitVec 8) : Dis :=
-  let r := row b0
-  if r.instr = M65XX_ERROR then ⟨t!"??? 0x" ++ hex 2 (u8 b0), len b0⟩
-  else ⟨nameOf r.instr ++ operandText addr r.op b1 b2, len b0⟩
+  if (row b0).instr = M65XX_ERROR then ⟨t!"??? 0x" ++ hex 2 (u8 b0), len b0⟩
+  else ⟨nameOf (row b0).instr ++ operandText addr (row b0).op b1 b2, len b0⟩
 
 /-! ### the statement the printed text is to the assembler's token loop -/
 
